@@ -114,7 +114,23 @@ func newGetRangeResult(
 
 // Verify verifies inclusion the data in the data root
 func (r *GetRangeResult) Verify(dataRoot []byte) error {
+	if r.Proof == nil {
+		return errors.New("share proof is missing")
+	}
 	rawShares := libshare.ToBytes(r.Shares)
+	if len(rawShares) != len(r.Proof.Data) {
+		return errors.New("share data mismatch")
+	}
+	for _, proof := range r.Proof.ShareProofs {
+		if proof == nil {
+			return errors.New("share proof contains a nil nmt proof")
+		}
+	}
+	for _, proof := range r.Proof.RowProof.Proofs {
+		if proof == nil {
+			return errors.New("share proof contains a nil row proof")
+		}
+	}
 	for i, shares := range rawShares {
 		if !bytes.Equal(shares, r.Proof.Data[i]) {
 			return errors.New("share data mismatch")
